@@ -13,6 +13,14 @@ float32):  |lib - ref| <= 5e-6 + 1e-5 |ref|  ("TOL32").  Library-vs-library rela
 (symmetry, affine map, permutation, max-vs-all mode) use twice that.  Gaussian MI / information
 transfer are accepted when they meet TOL32 either on the information scale or, because
 -1/2 log(1 - r^2) is ill-conditioned at |r| -> 1, on the |r| scale.
+
+Affine-offset families (second round; checks "<existing name>@affine"): the same family functions
+are run on float64 series a*x + b per column, |a| in [1e-3, 1e3], |b| up to 1e7 (both signs).
+The reference statistics are affine invariant; the moment-based ones are evaluated on the data
+centred in extended precision (centre_like), rank / quantile-bin ones on the data themselves, the
+climate classes from the harness' own phase-mean removal (own_anomaly) and the Surrogates test
+matrices from the harness' own normalisation, so that no step of the library's pipeline
+(observable -> anomaly / standardisation -> single-precision kernel) enters the oracle.
 """
 import os
 for _v in ("OMP_NUM_THREADS", "OPENBLAS_NUM_THREADS", "MKL_NUM_THREADS"):
@@ -65,7 +73,27 @@ SCOPE = (
     "further deviations have exactly one dedicated probe each: mutual_information/"
     "binning-lagged-norm, mutual_information/gauss-perfect-correlation, SpearmanClimateNetwork/"
     "ties-average-rank; elsewhere tau_max <= 6, binned MI with tau_max > 0 is accepted up to the "
-    "factor (T-tau_max)/T, and Spearman is compared on tie-free anomaly series only."
+    "factor (T-tau_max)/T, and Spearman is compared on tie-free anomaly series only.  "
+    "Affine-offset families (checks '<name>@affine', 10 / 60 repetitions x 9 kinds [no constant "
+    "column] x 3-4 shapes, T in 4..200 (thorough ..600), N in 2..6): float64 series a*x + b per "
+    "column with |a| log-uniform in [1e-3, 1e3] and |b| in {1e3, 1e5, 1e6, 1e7} or log-uniform in "
+    "[1, 1e7], both signs, i.e. offset/spread up to 1e10: cross_correlation all/max + "
+    "symmetrize_by_absmax, CouplingAnalysisPurePython.cross_correlation all/max/sum/only_tri and "
+    "its agreement with the compiled class, mutual_information binning/gauss all/max, "
+    "pure mutual_information all/max, Surrogates.normalize_original_data -> test_pearson_"
+    "correlation / test_mutual_information (reference from the harness' own normalisation) at the "
+    "full offset range; information_transfer gauss ity/mit all/max and the four climate classes "
+    "(cycle 1-3, and 12 with winter_only; reference from the harness' own phase-mean removal, "
+    "library through ClimateData.anomaly and through similarity_measure()) with offset/spread "
+    "|b|/|a| <= 1e8 (the library's float64 means per phase / near-degenerate regressions lose the "
+    "single-precision accuracy beyond); shuffled_surrogate_for_cc/_mi with |b|/|a| <= 10 (that "
+    "routine centres in float32).  All clauses of the base families (equality with the reference at "
+    "TOL32, bounds |r| <= 1 + 2 ATOL, symmetry, max-vs-all, diagonal) apply.  Not compared in the "
+    "affine families: entries whose window is constant (and every summary of such a data set), "
+    "climate pairs involving a series whose anomaly spread is below 1e7 eps max|observable| or "
+    "(Spearman) has two values closer than 64 eps max|observable|.  A series constant at a value "
+    "whose float64 mean is not the value has one dedicated probe "
+    "(cross_correlation/constant-series-inexact-mean, pure.cross_correlation/...)."
 )
 RULE = (
     "A case is (family, data descriptor, estimator arguments); data descriptors are explicit "
@@ -73,7 +101,9 @@ RULE = (
     "one library output compared with its spec clause group (counted per family call and "
     "estimator/lag mode).  A case is distinct by its JSON witness and counted non-trivial when "
     "the data have at least two columns that are not constant (so at least one off-diagonal "
-    "statistic is defined); for symmetrize_by_absmax when some pair has |S_ij| != |S_ji|."
+    "statistic is defined); for symmetrize_by_absmax when some pair has |S_ij| != |S_ji|.  "
+    "Affine-offset cases carry the per-column map in the data descriptor ('aff': a, b) and are "
+    "evaluated by the same family functions; their check names end in '@affine'."
 )
 
 
@@ -333,6 +363,17 @@ def fam_cc(w, acc):
     if lib_all.shape != (N, N, tm + 1):
         acc.fail("cross_correlation/all-equals-pearson", w, f"shape {lib_all.shape}")
         return
+    aff_undef = is_affine(w["data"]) and bool(np.isnan(ref).any())
+    if aff_undef:
+        # affine family, some window of a series constant: only the defined entries are compared
+        # (a constant at a value with an inexact float64 mean: dedicated probe constnd)
+        msg = cmp_defined(lib_all, ref, undefined="skip")
+        if msg:
+            acc.fail("cross_correlation/all-equals-pearson", w, msg)
+        sub_ = lib_all[np.isfinite(ref)]
+        if sub_.size and (not np.all(np.isfinite(sub_)) or np.abs(sub_).max() > 1 + 2 * ATOL):
+            acc.fail("cross_correlation/bounds", w, f"max |cc| = {np.abs(sub_).max()!r}")
+        return
     msg = cmp_defined(lib_all, ref, undefined="zero")
     if msg:
         acc.fail("cross_correlation/all-equals-pearson", w, msg)
@@ -434,6 +475,29 @@ def fam_lag8(w, acc):
         acc.fail("cross_correlation/lag-int8-range", w,
                  f"column 1 is column 0 delayed by {s} samples (cc={val[0, 1]!r}); reported lag "
                  f"{int(lag[0, 1])} (dtype {lag.dtype}), expected {s}")
+
+
+def fam_constnd(w, acc):
+    """Dedicated probe: a series that is constant at a value whose float64 mean over the window
+    is not the value itself (0.1, T = 7).  The statistic is undefined; the library documents 0
+    for zero-variance series and must at least return finite values in [-1, 1]."""
+    d = get_data(w["data"])
+    tm = w["tau_max"]
+    acc.case(wkey(w), True, sample=w)
+    with quiet():
+        lib = _ca(d).cross_correlation(tau_max=tm, lag_mode="all")
+        val, _ = _ca(d).cross_correlation(tau_max=tm, lag_mode="max")
+        pure = _pp(d).cross_correlation(tau_max=tm, lag_mode="all")
+    seen = set()
+    for name, mode, arr in (("cross_correlation", "all", lib), ("cross_correlation", "max", val),
+                            ("pure.cross_correlation", "all", pure)):
+        arr = np.asarray(arr, dtype=np.float64)
+        if name not in seen and (not np.all(np.isfinite(arr)) or np.abs(arr).max() > 1 + 2 * ATOL):
+            seen.add(name)
+            acc.fail(name + "/constant-series-inexact-mean", w,
+                     f"series 1 is constant at {d[0, 1]!r}: lag_mode='{mode}' gives {arr.tolist()}, "
+                     f"expected finite values in [-1, 1] (0 for the pairs involving the constant "
+                     f"series)")
 
 
 def _bins_eff(M, bins):
@@ -742,6 +806,11 @@ def fam_ccpure(w, acc):
         m = pp.cross_correlation(tau_max=tm, lag_mode="max")
         sm = pp.cross_correlation(tau_max=tm, lag_mode="sum")
     acc.case(wkey(w) + "|all", nontriv, sample=w)
+    if is_affine(w["data"]) and np.isnan(ref).any():
+        msg = cmp_defined(a, ref, undefined="skip")       # see fam_cc
+        if msg:
+            acc.fail("pure.cross_correlation/all-equals-pearson", w, msg)
+        return
     msg = cmp_defined(a, ref, undefined="zero")
     if msg:
         acc.fail("pure.cross_correlation/all-equals-pearson", w, msg)
@@ -875,6 +944,8 @@ def fam_shuf(w, acc):
         with quiet():
             x = pp.shuffled_surrogate_for_cc(fourier=False, tau_max=tm, lag_mode=mode)
         acc.case(wkey(w) + "|cc|" + mode, nontriv, sample=w if mode == "all" else None)
+        if is_affine(w["data"]) and np.isnan(R).any():
+            break                                            # see fam_cc
         if mode == "all":
             msg = None if x.shape == (2 * tm + 1, N, N) else f"shape {x.shape}"
             msg = msg or next((cmp_defined(x[t], R, undefined="zero")
@@ -977,6 +1048,20 @@ def fam_clim(w, acc):
     offd = ~np.eye(N, dtype=bool)
     ref = None
     undefined = "skip"
+    noisy = []
+    if aff:
+        # series whose anomaly is not well above the float64 rounding noise at the magnitude of
+        # the observable (e.g. an exactly periodic signal removed by the phase means) have no
+        # reproducible statistic: pairs involving them are not compared
+        floor = 1e7 * np.finfo(np.float64).eps * np.abs(d).max(axis=0)
+        noisy = [k for k in range(N) if anomaly[:, k].std() < floor[k]]
+        if noisy:
+            acc.skip("affine family: pairs involving a series whose anomaly spread is below 1e7 "
+                     "eps x max|observable| (rounding noise) are not compared")
+            # (partial correlation and the common histogram range depend on every series)
+            if cls_name in ("PartialCorrelationClimateNetwork", "MutualInfoClimateNetwork") \
+                    or len(noisy) > N - 2:
+                return
     if cls_name == "TsonisClimateNetwork":
         ref = S.pearson_matrix(anomaly)
         chk = "equals-pearson"
@@ -1023,6 +1108,10 @@ def fam_clim(w, acc):
                      "within 5e-5 cell widths of a cell boundary (float32 binning ambiguous) "
                      "are not compared")
         chk = "equals-histogram-mi"
+    if noisy:
+        ref = np.array(ref, dtype=np.float64)
+        ref[noisy, :] = np.nan
+        ref[:, noisy] = np.nan
     ref_od = np.where(offd, ref, np.nan)
     msg = cmp_defined(signed[offd], ref[offd], undefined=undefined)
     if msg:
@@ -1126,7 +1215,7 @@ def fam_surr(w, acc):
         for j in range(N):
             if i != j:
                 ref[i, j] = S.pearson(oref[i], sref[j])
-    msg = cmp_defined(pc_, ref, undefined="zero")
+    msg = cmp_defined(pc_, ref, undefined="skip" if aff else "zero")
     if msg:
         acc.fail("Surrogates.test_pearson_correlation/equals-pearson", w, msg)
     if np.any(np.abs(pc_) > 1 + 2 * ATOL):
@@ -1209,7 +1298,7 @@ def _ref_or_nan(orig, sur):
 FAMILIES = {
     "cc": fam_cc, "sym": fam_sym, "lag8": fam_lag8, "mi": fam_mi, "binlag": fam_binlag,
     "it": fam_it, "gaussinf": fam_gaussinf, "ccpure": fam_ccpure, "mipure": fam_mipure, "shuf": fam_shuf,
-    "clim": fam_clim, "surr": fam_surr,
+    "clim": fam_clim, "surr": fam_surr, "constnd": fam_constnd,
 }
 
 KINDS = ["rand", "ar", "const", "dup", "anti", "ties", "lagcopy", "sine", "mixed"]
@@ -1236,6 +1325,8 @@ def build_cases(tier, seed):
                   "tau_max": 6, "bins": 4})
     cases.append({"family": "gaussinf", "data": {"kind": "mixed", "T": 22, "N": 4,
                                                   "dseed": 159193099}, "tau_max": 4})
+    cases.append({"family": "constnd", "tau_max": 0, "data": {"explicit": [
+        [0.3, 0.1], [-1.2, 0.1], [0.8, 0.1], [2.1, 0.1], [-0.4, 0.1], [0.9, 0.1], [-1.7, 0.1]]}})
     cases.append({"family": "clim", "cls": "SpearmanClimateNetwork", "cycle": 1,
                   "winter_only": False, "probe_ties": True,
                   "data": {"explicit": [[0, 0, 2], [0, 1, 2], [1, 0, 2], [1, 1, 2],
@@ -1342,6 +1433,94 @@ def build_cases(tier, seed):
     return cases
 
 
+AFF_KINDS = ["rand", "ar", "ar", "lagcopy", "sine", "ties", "dup", "anti", "mixed"]
+
+
+def gen_affine(rng, N, ratio_max=None):
+    """Per-column maps x -> a x + b: |a| log-uniform in [1e-3, 1e3] (with the end points over-
+    represented), |b| in {1e3, 1e5, 1e6, 1e7} or log-uniform in [1, 1e7], both signs.
+    ratio_max: upper bound on |b| / |a| (offset over spread, the data kinds have spread ~ 1)."""
+    a = 10.0 ** rng.uniform(-3, 3, N)
+    pick = rng.rand(N)
+    a = np.where(pick < 0.15, 1e-3, np.where(pick > 0.85, 1e3, a))
+    a *= np.where(rng.rand(N) < 0.5, -1.0, 1.0)
+    b = 10.0 ** rng.uniform(0, 7, N)
+    pick = rng.rand(N)
+    b = np.where(pick < 0.5, np.array([1e3, 1e5, 1e6, 1e7])[rng.randint(0, 4, N)], b)
+    b = np.where(pick > 0.8, 1e7, b)
+    b *= np.where(rng.rand(N) < 0.5, -1.0, 1.0)
+    if ratio_max is not None:
+        b = np.sign(b) * np.minimum(np.abs(b), ratio_max * np.abs(a))
+    return {"a": [float(v) for v in a], "b": [float(v) for v in b]}
+
+
+RATIO_SHUF = 10.0     # shuffled_surrogate_for_cc centres in float32
+RATIO_DEGEN = 1e8     # Gaussian information transfer (near-degenerate regressions), climate classes
+#                       (one float64 mean per phase of the cycle: first-order effect)
+
+
+def build_affine_cases(tier, seed, ratio_shuf=RATIO_SHUF, ratio_it=RATIO_DEGEN):
+    """Affine-offset families: every estimator / lag mode of the existing families on the float64
+    series a*x + b (checks carry the suffix @affine)."""
+    rng = np.random.RandomState(seed + 7919)
+    thorough = tier == "thorough"
+    cases = []
+
+    def ds():
+        return int(rng.randint(1, 2 ** 31 - 1))
+
+    reps = int(os.environ.get("C10_AFF_REPS", 60 if thorough else 10))
+    for _ in range(reps):
+        for kind in AFF_KINDS:
+            shapes = [(4, 3), (int(rng.randint(6, 30)), int(rng.randint(2, 6))),
+                      (int(rng.randint(30, 200)), int(rng.randint(2, 7)))]
+            if thorough:
+                shapes.append((int(rng.randint(200, 600)), int(rng.randint(2, 5))))
+            for (T, N) in shapes:
+                if kind == "mixed":
+                    N = min(max(N, 3), 4)       # (no constant column: see SCOPE)
+                desc = {"kind": kind, "T": T, "N": N, "dseed": ds(), "aff": gen_affine(rng, N)}
+                desc3 = dict(desc, aff=gen_affine(rng, N, ratio_max=ratio_it))
+                tm = int(rng.randint(0, max(0, min(6, T - 3)) + 1))
+                cases.append({"family": "cc", "data": desc, "tau_max": tm})
+                if T <= 200:
+                    tmp = int(rng.randint(0, max(0, min(4, (T - 3) // 2)) + 1))
+                    cases.append({"family": "ccpure", "data": desc, "tau_max": tmp})
+                cases.append({"family": "surr", "data": desc, "surrogate": "self",
+                              "n_bins": int(rng.choice([2, 3, 8, 32])), "sseed": ds(), "rel": 0})
+                if 6 <= T <= 400:
+                    for cls in CLIMATE:
+                        cyc = int(rng.choice([1, 2, 3])) if T >= 12 else 1
+                        cases.append({"family": "clim", "cls": cls, "cycle": cyc, "winter_only": False,
+                                      "data": desc3, "rel": 0})
+                if 36 <= T <= 400:
+                    cls = str(rng.choice(CLIMATE))
+                    cases.append({"family": "clim", "cls": cls, "cycle": 12, "winter_only": True,
+                                  "data": desc3, "rel": 0})
+                if T <= 200 and N <= 6:
+                    bins = int(rng.choice([2, 3, 4, 6, 8]))
+                    cases.append({"family": "mi", "data": desc, "tau_max": tm, "estimator": "binning",
+                                  "bins": bins})
+                    cases.append({"family": "mi", "data": desc, "tau_max": 0, "estimator": "binning",
+                                  "bins": bins})
+                    cases.append({"family": "mi", "data": desc, "tau_max": tm, "estimator": "gauss"})
+                    for cm in ("ity", "mit"):
+                        past = int(rng.randint(1, 3))
+                        if T - tm - past >= 3:
+                            cases.append({"family": "it", "data": desc3, "tau_max": tm, "past": past,
+                                          "cond_mode": cm, "estimator": "gauss"})
+                    if T - 2 * 2 >= 4:
+                        tmp = int(rng.randint(0, min(2, (T - 4) // 2) + 1))
+                        cases.append({"family": "mipure", "data": desc, "tau_max": tmp,
+                                      "bins": int(rng.choice([2, 3, 4]))})
+                        # the shuffled-surrogate routine centres in single precision: offsets up to
+                        # ratio_shuf x spread only
+                        desc2 = dict(desc, aff=gen_affine(rng, N, ratio_max=ratio_shuf))
+                        cases.append({"family": "shuf", "data": desc2, "tau_max": tmp,
+                                      "bins": int(rng.choice([2, 3, 4])), "rseed": ds() % (2 ** 31)})
+    return cases
+
+
 def eval_case(w):
     acc = Acc(tag="@affine" if isinstance(w.get("data"), dict) and is_affine(w["data"]) else "")
     try:
@@ -1377,7 +1556,7 @@ def main():
         wit = {k: v for k, v in wit.items() if k not in ("a", "b", "perm", "observe")}
         cases = [wit]
     else:
-        cases = build_cases(args.tier, args.seed)
+        cases = build_cases(args.tier, args.seed) + build_affine_cases(args.tier, args.seed)
     workers = 1
     if not args.replay:
         workers = min(8, os.cpu_count() or 1) if args.tier == "thorough" else min(4, os.cpu_count() or 1)
